@@ -332,6 +332,44 @@ def _s6_map_columns_order(program, res):
                         renames[0].stmt)
 
 
+def _s7_record_transform_columns(program, res):
+    """blocks -> row records: the declared result columns are blocks_in.row_columns (all value cells of the control table); the data-frame
+    implementations build one column group per key level *observed in the data*, so each return has to lay the result out by row_columns"""
+    for (mod, cls) in (("pandas_base", "PandasModelBase"), ("polars_model", "PolarsModel")):
+        m = program.method(mod, cls, "blocks_to_rowrecs", inherited=False)
+        res.analysed(m)
+        spec = [p for p in m.params() if p not in ("self", "data")][0]
+        g = cfgmod.build(m.node)
+        d = depsmod.Deps(g, m.params())
+        n = 0
+        for r in g.returns():
+            if r.stmt.value is None:
+                continue
+            n += 1
+            v = r.stmt.value
+            direct = f"{spec}.row_columns" in unparse(v)
+            laid = False
+            if isinstance(v, ast.Name):
+                # last assignment(s) to the returned name select / reindex by row_columns
+                for st in ast.walk(m.node):
+                    if isinstance(st, ast.Assign) and len(st.targets) == 1 and unparse(st.targets[0]) == v.id and f"{spec}.row_columns" in unparse(st.value) \
+                            and g.has_node(st) and g.dominates(g.node_of(st).id, r.id) \
+                            and not any(isinstance(o, ast.Assign) and unparse(o.targets[0]) == v.id and o is not st and g.has_node(o)
+                                        and g.node_of(o).id in g.reachable_from(g.node_of(st).id) and r.id in g.reachable_from(g.node_of(o).id)
+                                        and f"{spec}.row_columns" not in unparse(o.value) and v.id not in {x.id for x in ast.walk(o.value) if isinstance(x, ast.Name)}
+                                        for o in ast.walk(m.node)):
+                        laid = True
+            if direct or laid:
+                res.ok("C08-S7", f"{cls}.blocks_to_rowrecs: a returned frame is laid out by {spec}.row_columns")
+            else:
+                res.fail_at("C08-S7", m, "row-record-columns-from-observed-keys",
+                            f"{cls}.blocks_to_rowrecs returns `{unparse(v)}`, whose columns are one group per key level present in the data: a control-table level that no row "
+                            f"carries is missing from the result (declared id,a,b → id,a), a level the control table does not know adds a column named nan/null; SQL returns "
+                            f"the declared columns with NULLs", r.stmt)
+        if n < 2:
+            raise AnalysisError(f"{cls}.blocks_to_rowrecs: expected the empty-input return and the main return")
+
+
 def _s5_declared_order(program, res):
     """the result's column order is the pipeline's declared order: the last thing each executor does is to lay the columns out by
     op.column_names (SQL: the top-level select list; Pandas: a final selection; Polars: every step ends in select(columns_produced), S2)"""
@@ -400,3 +438,5 @@ def run(program, res, tier):
     _s5_declared_order(program, res)
     res.rule("C08-S6", "map_columns: deletions are applied to the input columns, before renaming")
     _s6_map_columns_order(program, res)
+    res.rule("C08-S7", "blocks_to_rowrecs returns the declared row-record columns whatever key levels the data holds")
+    _s7_record_transform_columns(program, res)
